@@ -158,7 +158,7 @@ package mqtt
 //@        evCount("Handler.Serve") == ite(evRet[bool]("(topicFilter).Match", 0, 0), 1, 0) &&
 //@        (evCount("Handler.Serve") == 1 ==> evArg[Handler]("Handler.Serve", 0, 0) == m.handlers[rangeindex1+1].handler)
 //@   loop 1 exit[C14] all_visited: rangeindex1+1 >= len(m.handlers)
-//@   loop 1 iter[C20] private_copy: evCount("Handler.Serve") == 1 ==> evCount("(*Message).clone") == 1 && evArg[*Message]("(*Message).clone", 0, 0) == message &&
+//@   loop 1 iter[C14,C20] private_copy: evCount("Handler.Serve") == 1 ==> evCount("(*Message).clone") == 1 && evArg[*Message]("(*Message).clone", 0, 0) == message &&
 //@        evArg[*Message]("Handler.Serve", 0, 1) == evRet[*Message]("(*Message).clone", 0, 0) && evArg[*Message]("Handler.Serve", 0, 1) != message
 
 //@ func (*ServeAsync).Serve
